@@ -3,34 +3,46 @@
    State of stage 4.
    MODEL + TIE (complete): Src/Compile4.v and VM/ValueVM4.v are tied at level 4 of checks/parts/compiletie.py on
    generated programs of `prog_in_F4` (F5 + closures).
-   PROOF: compile_program_correct_F4_partial (below) — whole programs with nested functions and closures,
-   for the fragment `Compile4.prog_in_P 5` = F5 (F2 + calls of top-level functions by name, self tail calls, catch
-   clauses) + CLOSURES:
+   PROOF: compile_program_correct_F4 (below) — whole programs with nested functions and closures, for the
+   fragment `Compile4.prog_in_P 5 p || Compile4.prog_in_P 6 p`; compile_program_correct_F4_partial is level 5
+   alone.  Both levels = F5 (F2 + calls of top-level functions by name, self tail calls, catch clauses) + CLOSURES:
      runs of sibling function items (mutually visible, the ALLOC / REWRITE knot), function expressions, captured
-     parameters / let / var / nested functions at any depth (ID_GLOBAL), assignment through a capture, function
-     values bound, passed, returned and called after the definer returned, calls whose callee is any expression
-     that yields a function value, nested functions that call themselves (also in tail position) or each other;
-     faults inside closures (RETHROW chain).
+     parameters / let / var / nested functions at any depth (ID_GLOBAL), function values bound, passed, returned
+     and called after the definer returned, calls whose callee is any expression that yields a function value,
+     nested functions that call themselves (also in tail position) or each other; faults inside closures
+     (RETHROW chain); self calls in TAIL position (top-level and nested: frame and vector reused); CATCH CLAUSES
+     (CLEAR_STACK keeps gp; the clause blocks see the parameters and the captured names).
+   Level 5: assignment to any name in scope (also through a capture), but no function object is used BY COPY.
+   Level 6: BY-VALUE COPIES of function objects — the name of a top-level function as a value (GLOBAL_VEC 0;
+     ID_FUNC_ADDR f) and the name of the running named nested function as a value (COPYGLOB; ID_FUNC_ADDR f):
+     bound, passed, stored in vectors, returned, called; the machine makes a new function object where the
+     evaluator yields the one cell, so the value relation is CompileCorrect4Rel.vrel: "a is the image of c, or a
+     copy of the function c holds" (ghost list `mc` of the morphism, MS clause ms_cp; a call through a copy:
+     vrel_fun) — and assignment ONLY to names of `Compile4.int_vars`: names bound by `var x = <int_shaped e>`
+     somewhere in the program and nowhere bound otherwise (not by let, not as a parameter, not as a function:
+     items_F_f / func_in_P at level 6), directly or through a capture (ghost list `mi` of int cells of the morphism,
+     MS clause ms_int, the last clause of env_match and of fun_rel's vector relation; Example ex10).  The two
+     levels cannot simply be merged into "assignment to any name": Src/Eval.v is untyped, and with copies the
+     morphism is no longer injective on function cells — `let g = f; g = x + 1; f + 1` (Example exbad below, in
+     the tie's prog_in_F4, rejected by never's typechecker) evaluates to x + 2 in Src/Eval.v and is stuck on
+     the machine.  So the side conditions cannot be reduced to naming ones: once copies are in the fragment a
+     typing-like restriction on assignment targets is needed (level 5 keeps assignment to any name in scope —
+     e.g. to `var` parameters — without copies).
    By one induction on the evaluator's fuel over ValueVM4 / Compile4 (Src/CompileCorrect4.v: expr / items /
    while / do-while specs for every function context, body_spec quantified over (kind, fd, closure environment,
-   vector) with the relation of Src/CompileCorrect4Rel.v: env_match with captured slots, fun_rel, the ghost list
-   of vectors) and the layout of `all_funcs` + the entry stub (Src/CompileCorrect4Prog.v).
-   NOT in the partial fragment (what is missing for the tie's full prog_in_F4), precisely:
-     (a) — nothing: self calls in TAIL position (top-level and nested: tcase_ECall_top / tcase_ECall_self, frame
-         and — for a nested function — vector reused) and CATCH CLAUSES (handlers_run over ValueVM4: CLEAR_STACK keeps
-         gp, the clause blocks see the parameters and the captured names) are covered, with the side condition of
-         F5 (a function WITH catch clauses has no self call in tail position);
-     (b) BY-VALUE COPIES of function objects used as VALUES: the name of a top-level function (it may only be
-         called), and the name of the running nested function inside its own body other than as the callee of a
-         call (a direct self call `f(…)` of a nested function — COPYGLOB; ID_FUNC_ADDR f; CALL — IS covered:
-         case_ECall_self, with the ghost list of recorded closures `mf` of the morphism: a recorded cell holds
-         its closure or an int, and a named nested function's environment binds its name to its own cell); the
-         machine makes a new function object where the evaluator returns the one cell: a value relation "a is a
-         copy of the image of c" is needed for these to flow into slots, vectors and results;
-     (c) the right-hand side of an assignment must be `int_shaped` (Src/CompileCorrect4Shape.v proves that such an
+   vector) with the relation of Src/CompileCorrect4Rel.v: env_match with captured slots, fun_rel, the ghost lists
+   of vectors, recorded closures and copies) and the layout of `all_funcs` + the entry stub
+   (Src/CompileCorrect4Prog.v).
+   Side conditions of both levels:
+     (a) a function WITH catch clauses has no self call in tail position (as in F5);
+     (b) the right-hand side of an assignment must be `int_shaped` (Src/CompileCorrect4Shape.v proves that such an
          expression yields an int cell: no typing hypothesis is needed; `x = y + 0` for `x = y`);
-     (d) bound names: a block's function run does not shadow a name in scope (run_ok), nested functions are not
-         named like top-level functions; all function names pairwise different (prog_in_P).
+     (c) bound names: a block's function run does not shadow a name in scope (run_ok), nested functions are not
+         named like top-level functions; all function names pairwise different (prog_in_P);
+     (d) a function nested in a NAMED nested function f does not mention f (the free variables of a nested
+         function are in scope, and a function's own name is not): the repaired emitter's shape (capture by
+         COPYGLOB; ID_FUNC_ADDR f) IS in the model Compile4.capture and in the level-4 tie, not in the proof
+         (CompileCorrect4Base.resolves excludes it).
    The lemmas of the first proof round (machine side, C08 facts, simulation cases over MS4) stay below.
    No axioms. *)
 From Coq Require Import ZArith List Bool Lia.
@@ -43,8 +55,8 @@ Local Open Scope Z_scope.
 (* ==== whole programs with closures ================================================================== *)
 
 (* ValueVM4 on the module image of Compile4 — from the entry stub to HALT / UNHANDLED_EXCEPTION — returns /
-   prints / raises what the evaluator says, for programs of the fragment prog_in_P 5 (see the header: closures
-   yes; tail self calls, catch clauses, by-value copies of function objects not yet) *)
+   prints / raises what the evaluator says, for programs of the fragment prog_in_P 5 (see the header: closures,
+   tail self calls, catch clauses, assignment; no by-value copies of function objects) *)
 Theorem compile_program_correct_F4_partial : forall fuel p args,
   prog_in_P 5 p = true ->
   match run_program fuel p args with
@@ -60,10 +72,11 @@ Print Assumptions compile_program_correct_F4_partial.
 (* the same with function objects used BY COPY: at level 6 the name of a top-level function, and the name of the
    running named nested function, may be used as a value (GLOBAL_VEC 0 / COPYGLOB; ID_FUNC_ADDR f make a new
    function object: the value relation is "the image of the cell, or a copy of the function the cell holds",
-   CompileCorrect4Rel.vrel) — stored, passed, returned, called.  Level 6 has no assignment: Src/Eval.v is untyped,
-   an assignment through an alias of a function's cell (let g = f; g = 5) goes on in the evaluator and is stuck
-   on the machine, so with copies in the fragment some static restriction on assignment is needed; level 5 is
-   the fragment of compile_program_correct_F4_partial (assignments, no copies) *)
+   CompileCorrect4Rel.vrel) — stored, passed, returned, called.  At level 6 only names bound by
+   `var x = <int_shaped>` (Compile4.int_vars) are assigned to: Src/Eval.v is untyped, an assignment through an
+   alias of a function's cell (let g = f; g = 5) goes on in the evaluator and is stuck on the machine, so with
+   copies in the fragment a static restriction on assignment targets is needed; level 5 is the fragment of
+   compile_program_correct_F4_partial (assignment to any name in scope, no copies) *)
 Theorem compile_program_correct_F4 : forall fuel p args,
   prog_in_P 5 p || prog_in_P 6 p = true ->
   match run_program fuel p args with
@@ -353,6 +366,22 @@ Example ex9_runs :
   run_vm ex9 3000 [5] = VRet 12 [] /\ run_program 300 ex9 [5] = OResult (CInt 12) [].
 Proof. vm_compute. split; reflexivity. Qed.
 
+(* why level 6 restricts the assigned names: with copies AND assignment to any name the untyped evaluator and the
+   machine part —
+     func f(x : int) -> int { x + 0 }
+     func main(x : int) -> int { let g = f; g = x + 1; f + 1 }
+   (never's typechecker rejects `g = x + 1`; Src/Eval.v does not: g and f are the same cell there) *)
+Definition fbad : fdef := FDef 1%N [(2%N, false, TInt)] TInt [IExpr (EBin Add (EVar 2%N) (EInt 0))] [] None.
+Definition mainbad : fdef := FDef 0%N [(3%N, false, TInt)] TInt
+  [ILet 4%N (EVar 1%N); IExpr (EAssign (EVar 4%N) (EBin Add (EVar 3%N) (EInt 1)));
+   IExpr (EBin Add (EVar 1%N) (EInt 1))] [] None.
+Definition exbad : program := {| p_recs := []; p_funcs := [fbad; mainbad]; p_main := 0%N |}.
+
+Example exbad_parts :
+  run_program 300 exbad [5] = OResult (CInt 7) [] /\ run_vm exbad 3000 [5] = VStuck /\
+  prog_in_P 5 exbad = false /\ prog_in_P 6 exbad = false.
+Proof. vm_compute. repeat split; reflexivity. Qed.
+
 (* a nested function with a self call in TAIL position that assigns a captured var:
      func main(x : int) -> int
      { var acc = x - x; func loop(n : int) -> int { (n <= 0) ? acc : { acc = acc + n; loop(n - 1) } }; loop(x) + 0 } *)
@@ -365,7 +394,32 @@ Definition main8 : fdef := FDef 0%N [(1%N, false, TInt)] TInt
    IExpr (EBin Add (ECall (EVar 3%N) [EVar 1%N]) (EInt 0))] [] None.
 Definition ex8 : program := {| p_recs := []; p_funcs := [main8]; p_main := 0%N |}.
 
-Example ex8_in_P : prog_in_P 5 ex8 = true /\ no_self_tail_fd loop8 = false.
+Example ex8_in_P : prog_in_P 5 ex8 = true /\ no_self_tail_fd loop8 = false /\ prog_in_P 6 ex8 = true.
+Proof. vm_compute. repeat split; reflexivity. Qed.
+
+(* copies AND assignment (level 6): a counter closure over `var c`, bumped through a copy of the top-level function
+   `add` passed as a value:
+     func add(a : int, b : int) -> int { a + b }
+     func main(x : int) -> int
+     { var c = x + 0; let op = add;
+       func bump(d : int) -> int { c = op(c, d) + 0; c + 0 };
+       let f = bump; bump(1) + f(2) + c } *)
+Definition add10 : fdef := FDef 1%N [(2%N, false, TInt); (3%N, false, TInt)] TInt
+  [IExpr (EBin Add (EVar 2%N) (EVar 3%N))] [] None.
+Definition bump10 : fdef := FDef 7%N [(8%N, false, TInt)] TInt
+  [IExpr (EAssign (EVar 5%N) (EBin Add (ECall (EVar 6%N) [EVar 5%N; EVar 8%N]) (EInt 0)));
+   IExpr (EBin Add (EVar 5%N) (EInt 0))] [] None.
+Definition main10 : fdef := FDef 0%N [(4%N, false, TInt)] TInt
+  [IVar 5%N (EBin Add (EVar 4%N) (EInt 0)); ILet 6%N (EVar 1%N); IFunc bump10; ILet 9%N (EVar 7%N);
+   IExpr (EBin Add (EBin Add (ECall (EVar 7%N) [EInt 1]) (ECall (EVar 9%N) [EInt 2])) (EVar 5%N))] [] None.
+Definition ex10 : program := {| p_recs := []; p_funcs := [add10; main10]; p_main := 0%N |}.
+
+Example ex10_in_P : prog_in_P 6 ex10 = true /\ prog_in_P 5 ex10 = false /\ int_vars (all_funcs ex10) = [5%N].
+Proof. vm_compute. repeat split; reflexivity. Qed.
+
+(* on 10: c = 11 after bump(1), 13 after f(2): 11 + 13 + 13 *)
+Example ex10_runs :
+  run_vm ex10 3000 [10] = VRet 37 [] /\ run_program 300 ex10 [10] = OResult (CInt 37) [].
 Proof. vm_compute. split; reflexivity. Qed.
 
 Example ex8_runs :
